@@ -1014,10 +1014,12 @@ class C08(PropBase):
         return ("generated repository histories (2-6 commits on two branches, lightweight + annotated tags, adds/changes/"
                 "removes/renames/mode changes, near-miss names around the configured directory and extension: sibling dir "
                 "sharing a prefix, file sharing the prefix, no-dot suffix, longer extension, hidden files, nested dirs, "
-                "executables, symlinks; dirty work tree and index; a snapshot of the repository mid-history), every commit "
+                "executables, symlinks, submodule entries; dirty work tree and index; a snapshot of the repository "
+                "mid-history), every commit "
                 "x selector forms (full/abbreviated id, branch, tag, refs/.., ~n, HEAD) x directory/extension settings "
                 "(with/without trailing slash, sub-directory, root, prefix of the name, dotted suffix through "
-                "Settings::get_input_settings, ...); non-trivial = the commit has both selected and non-selected files; "
+                "Settings::get_input_settings, ...); ~8 cases per repository also through the real binary on every input "
+                "route of cli_args::get_input_type; non-trivial = the commit has both selected and non-selected files; "
                 "distinct = sha256 of the implementation case line")
 
     def trusted_base(self):
